@@ -35,7 +35,12 @@ macro_rules! family {
                     0 => r.range(-0.01, 0.01),
                     1 => core::f64::consts::PI * r.int_in(-2, 2) as f64 * 0.5 + r.range(-1e-3, 1e-3),
                     // tiny rotations of every magnitude down to the smallest subnormal angle
-                    2 => { let kmax = (<$S>::MANTISSA_DIGITS as i32 - <$S>::MIN_EXP) as f64 + 2.0; (-r.range(8.0, kmax)).exp2() * if r.bool() { 1.0 } else { -1.0 } }
+                    2 => {
+                        let kmax = (<$S>::MANTISSA_DIGITS as i32 - <$S>::MIN_EXP) as f64 + 2.0;
+                        // half of them where squared magnitudes are subnormal, from full precision down to the last bit
+                        let k = if r.bool() { r.range(8.0, kmax) } else { (<$S>::MANTISSA_DIGITS as f64 - <$S>::MIN_EXP as f64) / 2.0 + r.range(-30.0, 1.0) };
+                        (-k).exp2() * if r.bool() { 1.0 } else { -1.0 }
+                    }
                     _ => r.range(-6.5, 6.5),
                 }) as $S
             }
@@ -83,7 +88,8 @@ macro_rules! family {
                     22 => { let q = pick!(p.uq).lerp(pick!(p.uq), s01); keep(&mut p.uq, q, r); out!("Quat::lerp", q); }
                     23 => { let q = pick!(p.uq).slerp(pick!(p.uq), s01); keep(&mut p.uq, q, r); out!("Quat::slerp", q); }
                     24 => { let q = pick!(p.uq).rotate_towards(pick!(p.uq), r.range(0.0, 3.5) as $S); keep(&mut p.uq, q, r); out!("Quat::rotate_towards", q); }
-                    25 => { let (ax, an) = pick!(p.uq).to_axis_angle(); let q = <$Q>::from_axis_angle(ax, an); keep(&mut p.uq, q, r); keep(&mut p.uv3, ax, r); out!("to_axis_angle->from_axis_angle", q); }
+                    25 => { if r.bool() { let q0 = <$Q>::from_axis_angle(pick!(p.uv3), ang(r)); keep(&mut p.uq, q0, r); let (ax0, an0) = q0.to_axis_angle(); keep(&mut p.uv3, ax0, r); let q1 = <$Q>::from_axis_angle(ax0, an0); out!("from_axis_angle->to_axis_angle->from_axis_angle", q1); }
+                            let (ax, an) = pick!(p.uq).to_axis_angle(); let q = <$Q>::from_axis_angle(ax, an); keep(&mut p.uq, q, r); keep(&mut p.uv3, ax, r); out!("to_axis_angle->from_axis_angle", q); }
                     26 => { let sa = pick!(p.uq).to_scaled_axis(); let q = <$Q>::from_scaled_axis(sa); keep(&mut p.uq, q, r); out!("to_scaled_axis->from_scaled_axis", q); let v = vec3(r) * (ang(r) as $S).abs().min(1.0); let q2 = <$Q>::from_scaled_axis(v); keep(&mut p.uq, q2, r); out!("from_scaled_axis", q2); }
                     27 => { let e = pick!(p.uq).to_euler(EulerRot::YXZ); out!("Quat::to_euler", e); let a = pick!(p.uq).angle_between(pick!(p.uq)); out!("Quat::angle_between", a); }
                     28 => { let m = <$M3>::from_quat(pick!(p.uq)); keep(&mut p.r3, m, r); out!("Mat3::from_quat", m); }
